@@ -179,3 +179,38 @@ def replay_strings(inputs, obl):
     if problems:
         return dict(confirmed=True, detail='; '.join(problems[:3]))
     return dict(confirmed=False, detail='strings and characters round-trip on the enumerated inputs')
+
+
+def replay_lists(inputs, obl):
+    """lists whose members are strings / characters made of bracket and quote characters: written then read back"""
+    import numpy as np
+    from klongpy import KlongInterpreter
+    from klongpy.writer import kg_write
+    from klongpy.core import KGChar
+    k = KlongInterpreter()
+    problems = []
+    atoms = ['[', ']', '(', '{', ':[', ';', '"', 'a[', '[]', ' ', KGChar('['), KGChar(']'), KGChar('"'), 1, 2.5]
+    vals = [np.array([a, 1], dtype=object) for a in atoms] + [np.array([1, a], dtype=object) for a in atoms] + \
+           [np.array(['a', np.array(['[', 2], dtype=object), ']'], dtype=object), np.array([np.array([KGChar('['), '['], dtype=object)], dtype=object)]
+
+    def canon(v):
+        if isinstance(v, np.ndarray):
+            return [canon(x) for x in v.tolist()] if v.dtype == object else v.tolist()
+        if isinstance(v, list):
+            return [canon(x) for x in v]
+        if isinstance(v, KGChar):
+            return ('char', str(v))
+        return v
+    for v in vals:
+        t = kg_write(v, k._backend)
+        k['t'] = t
+        try:
+            r = k('.rs(t)')
+        except Exception as e:
+            problems.append(f"{t} read back raised {type(e).__name__}: {str(e)[:60]}")
+            continue
+        if canon(r) != canon(v):
+            problems.append(f"{t} reads back as {kg_write(r, k._backend) if not isinstance(r, Exception) else r}")
+    if problems:
+        return dict(confirmed=True, detail='; '.join(problems[:3]), count=len(problems))
+    return dict(confirmed=False, detail=f"{len(vals)} lists with bracket / quote members read back as written")
